@@ -14,6 +14,7 @@ import (
 	logging "github.com/ipfs/go-log/v2"
 	"github.com/ipld/go-storethehash/store/freelist"
 	"github.com/ipld/go-storethehash/store/types"
+	"github.com/ipld/go-storethehash/store/verifhook"
 )
 
 var log = logging.Logger("storethehash/mhprimary")
@@ -120,13 +121,16 @@ func (gc *primaryGC) gc(ctx context.Context, lowUsePercent int64, timeLimit time
 	// The second pass hands those over, so that no superseded record is still
 	// marked as in use when records are relocated below.
 	affectedSet := make(map[uint32]struct{})
+	verifhook.At("primary.gc.start")
 	for pass := 0; pass < 2; pass++ {
 		if _, err := gc.freeList.ToGC(); err != nil {
 			return 0, fmt.Errorf("cannot get freelist gc file: %w", err)
 		}
+		verifhook.At("primary.gc.tgc_done")
 		if _, err := gc.primary.Flush(); err != nil {
 			return 0, fmt.Errorf("cannot flush primary: %w", err)
 		}
+		verifhook.At("primary.gc.flushed")
 
 		affected, err := processFreeList(ctx, gc.freeList, gc.primary.basePath, gc.primary.maxFileSize)
 		if err != nil {
@@ -177,13 +181,16 @@ func (gc *primaryGC) gc(ctx context.Context, lowUsePercent int64, timeLimit time
 			if err = writeHeader(gc.primary.headerPath, header); err != nil {
 				return 0, fmt.Errorf("cannot write header: %w", err)
 			}
+			verifhook.At("primary.gc.header_written")
 			if err = os.Remove(filePath); err != nil {
 				return 0, fmt.Errorf("cannot remove primary file %s: %w", filePath, err)
 			}
+			verifhook.At("primary.gc.unlinked")
 			log.Debugw("Removed empty primary file", "file", filepath.Base(filePath))
 		}
 
 		gc.visited[fileNum] = struct{}{}
+		verifhook.At("primary.gc.file_done")
 
 		if ctx.Err() != nil {
 			if err == context.DeadlineExceeded {
@@ -253,6 +260,7 @@ func (gc *primaryGC) reapRecords(fileNum uint32, lowUsePercent int64) (bool, err
 					if err != nil {
 						return false, fmt.Errorf("cannot write to index file %s: %w", file.Name(), err)
 					}
+					verifhook.At("primary.gc.merged")
 					mergedCount++
 				}
 			} else {
@@ -289,6 +297,7 @@ func (gc *primaryGC) reapRecords(fileNum uint32, lowUsePercent int64) (bool, err
 		if err = file.Truncate(freeAt); err != nil {
 			return false, err
 		}
+		verifhook.At("primary.gc.truncated")
 		gc.reclaimed += int64(freeAtSize)
 		log.Debugw("Removed free records from end of primary file", "file", fileName, "at", freeAt, "bytes", freeAtSize)
 
@@ -320,6 +329,7 @@ func (gc *primaryGC) reapRecords(fileNum uint32, lowUsePercent int64) (bool, err
 			if _, err = file.ReadAt(data, busyAt+sizePrefixSize); err != nil {
 				return false, fmt.Errorf("cannot read record data: %w", err)
 			}
+			verifhook.At("primary.gc.reloc.read")
 			// Extract key and value from record data.
 			key, val, err := readNode(data)
 			if err != nil {
@@ -335,6 +345,7 @@ func (gc *primaryGC) reapRecords(fileNum uint32, lowUsePercent int64) (bool, err
 			if err != nil {
 				return false, fmt.Errorf("cannot put new primary record: %w", err)
 			}
+			verifhook.At("primary.gc.reloc.put")
 			// Update the index with the new primary location.
 			if err = gc.updateIndex(indexKey, fileOffset); err != nil {
 				log.Errorw("Cannot update index with new record location", "err", err)
@@ -352,6 +363,7 @@ func (gc *primaryGC) reapRecords(fileNum uint32, lowUsePercent int64) (bool, err
 			// GC cycle process freelist and delete this record. This also
 			// keeps low-use files getting processed each GC cycle.
 
+			verifhook.At("primary.gc.reloc.index_updated")
 			// Add outdated data in primary storage to freelist
 			offset := absolutePrimaryPos(types.Position(busyAt), fileNum, gc.primary.maxFileSize)
 			blk := types.Block{Size: types.Size(busySize), Offset: types.Position(offset)}
@@ -359,6 +371,7 @@ func (gc *primaryGC) reapRecords(fileNum uint32, lowUsePercent int64) (bool, err
 				return false, fmt.Errorf("cannot put old record location into freelist: %w", err)
 			}
 
+			verifhook.At("primary.gc.reloc.freed")
 			busyAt = prevBusyAt
 			busySize = prevBusySize
 			prevBusyAt = -1
@@ -434,9 +447,11 @@ func processFreeList(ctx context.Context, freeList *freelist.FreeList, basePath 
 		log.Debugw("Marked primary records from freelist as deleted", "count", count, "elapsed", time.Since(startTime).String())
 	}
 
+	verifhook.At("primary.gc.fl.applied")
 	if err = os.Remove(flPath); err != nil {
 		return nil, fmt.Errorf("error removing freelist: %w", err)
 	}
+	verifhook.At("primary.gc.fl.removed")
 
 	return affectedSet, nil
 }
@@ -509,6 +524,7 @@ func deleteRecords(freeBatch []*types.Block, maxFileSize uint32, basePath string
 			log.Errorw("Cannot write to primary file", "file", file.Name(), "err", err)
 			continue
 		}
+		verifhook.At("primary.gc.fl.marked")
 		count++
 	}
 
